@@ -34,8 +34,8 @@ def verify_module(path, repo, timeout_ms=20000, workers=16, only=None, verbose=F
         for o in obls:
             jobs.append((o, axioms, fs.unit, kind))
         report["units"].append({"unit": fs.unit, "kind": kind, "obligation_instances": len(obls)})
-        if kind == "lemma":
-            # available to later units; its own obligations are discharged below like any other
+        if kind == "lemma" and fs.options.get("auto"):
+            # @lemma(auto=True): available to later units; its own obligations are discharged below like any other
             it = Interp(eng, None, Decider([]), spec_only=True)
             eng.proved_lemmas.append(it.quantify_fn(fs))
     report["gen_time"] = time.time() - t0
